@@ -559,7 +559,10 @@ def lookup_stage1(case):
     member = [m for m in MBXMLDocumentIdentifier if m.value[0] == doc_id][0]
     try:
         doc = LRRP(document_id=member)
-        tok = doc.get_token(name=key, value=value, attributes=dict(attrs), is_request=is_request)
+        given = dict(attrs)
+        tok = doc.get_token(name=key, value=value, attributes=given, is_request=is_request)
+        if given != attrs:
+            return "lookup_consumed_the_callers_attributes_dict", f"{attrs!r} -> {given!r}"
     except ModuleNotFoundError:
         return "lookup_refused", ""
     except Exception as e:
